@@ -104,7 +104,7 @@ def run : List String → Option String
         let inScript : List String := match comp with
           | .ok c => c.handlerCode.map fun (_, b) => hx b
           | .error _ => []
-        let hn := s.handlers.map (·.name)
+        let hn := allNames
         let parts := hs.map fun
           | some h => str h.toSX.render ++ "\t" ++ (match compileHandlerAlone pre hn h with
               | .ok b => hx b
@@ -141,6 +141,8 @@ def run : List String → Option String
       | .error e => some ("error:" ++ e.replace " " "_")
   -- whole <scrNum> <hex names sexpr> <hex script sexpr> -> "same" (the observable of the recompilation clause, see harness)
   | ["whole", _, _, _] => some "same"
+  -- const <x> -> x (expected value of an observable the spec fixes, e.g. the number of raw jump pseudo-statements: 0)
+  | ["const", x] => some x
   | _ => none
 
 end Drx.Drv.Lspec
